@@ -238,16 +238,28 @@ func Solve(o *Obligation, cfg *SolverCfg, idx int) {
 	// stage 2: race all
 	ctx, cancel := context.WithCancel(context.Background())
 	defer cancel()
-	ch := make(chan solverRes, 3)
-	solvers := []string{"z3-new", "z3", "cvc5"}
+	ch := make(chan solverRes, 6)
+	// a small portfolio: the three solvers, and z3-new under two further seeds (an obligation
+	// whose proof depends on the solver's random seed must not turn into an alarm)
+	type racer struct {
+		s    string
+		seed int
+	}
+	solvers := []racer{{"z3-new", cfg.Seed}, {"z3", cfg.Seed}, {"cvc5", cfg.Seed}, {"z3-new", cfg.Seed + 1}, {"z3-new", cfg.Seed + 2}}
 	n := 0
 	for _, s := range solvers {
 		file := f1
-		if s == "cvc5" {
+		if s.s == "cvc5" {
 			file = f2
 		}
 		n++
-		go func(s, file string) { ch <- runSolver(ctx, s, file, cfg.TimeoutMS, cfg.Seed) }(s, file)
+		go func(s racer, file string) {
+			r := runSolver(ctx, s.s, file, cfg.TimeoutMS, s.seed)
+			if s.seed != cfg.Seed {
+				r.solver = fmt.Sprintf("%s(seed+%d)", s.s, s.seed-cfg.Seed)
+			}
+			ch <- r
+		}(s, file)
 	}
 	var results []solverRes
 	decided := o.Status != ""
